@@ -51,6 +51,14 @@ func (r *Rand) Bool() bool          { return r.U64()&1 == 1 }
 func (r *Rand) Chance(p float64) bool { return float64(r.U64()>>11)/float64(1<<53) < p }
 func (r *Rand) Range(lo, hi int) int { return lo + r.Intn(hi-lo+1) }
 
+// traceOn: BW_TRACE=1 makes the simulated runs record their event log.
+var traceOn = os.Getenv("BW_TRACE") == "1"
+
+// detHash hashes everything a run decided and observed.
+func detHash(log []string, tape []uint32, extra ...string) string {
+	return hashStr(strings.Join(log, "\n") + fmt.Sprint(tape) + strings.Join(extra, "\n"))
+}
+
 func hashStr(s string) string {
 	h := sha1.Sum([]byte(s))
 	return hex.EncodeToString(h[:8])
@@ -68,6 +76,7 @@ type Outcome struct {
 	Stats      map[string]int64 `json:"stats,omitempty"`
 	Execs      int64            `json:"execs,omitempty"` // simulated executions performed for this case (>=1)
 	Sample     any              `json:"sample,omitempty"`
+	Det        string           `json:"det,omitempty"` // hash of the full event log (determinism self-test)
 }
 
 func (o *Outcome) stat(k string, n int64) {
@@ -216,6 +225,15 @@ func RunShard(t *testing.T) {
 		return
 	case "shrink":
 		runShrink(t, h, &jr)
+		return
+	case "det":
+		// determinism self-test: print a hash of the complete event log of each case
+		start, n := envInt("BW_START", 0), envInt("BW_MAXCASES", 64)
+		for idx := start; idx < start+n; idx++ {
+			c := h.Gen(caseRand(prop, seed, envInt("BW_SHARD", 0), idx), tier, idx%2 == 0)
+			o := safeRun(h, t, c)
+			jr.line("D", fmt.Sprintf("%d %s %s %s", idx, o.Verdict, o.Class, o.Det))
+		}
 		return
 	case "gen":
 		idx := envInt("BW_START", 0)
